@@ -961,6 +961,29 @@ fn run_wcase<V: VirtualFileSystem>(mk: &dyn Fn() -> Wb<V>, c: &WCase, st: &mut W
         Err(e) => return Some((format!("{} {}(): panic", b.name, c.kind.name()), head(&format!("opening panicked: {}", panic_message(&e))))),
     };
     let mut written: Vec<u8> = vec![];
+    // while an append handle is open the file still reads as its old content followed by some prefix of
+    // what went through the handle (nothing of the old content disappears before the first flush)
+    let check_open = |point: &str, written: &[u8], st: &mut WStats| -> Option<(String, String)> {
+        if c.kind != Kind::Append {
+            return None;
+        }
+        st.checks += 1;
+        let got = b.readback();
+        let ok = match &got {
+            Ok(g) => g.len() >= base.len() && g.starts_with(&base) && written.starts_with(&g[base.len()..]),
+            Err(_) => !c.existing && false,
+        };
+        if ok {
+            return None;
+        }
+        Some((
+            format!("{} append handle: old content not readable while the handle is open", b.name),
+            head(&format!("{} vfs.read()+read_to_end gives {:?}, expected \"{}\" followed by a prefix of \"{}\"", point, got.as_ref().map(|d| bytes_repr(d)), bytes_repr(&base), bytes_repr(written))),
+        ))
+    };
+    if let Some(v) = check_open("right after append() returned the handle", &written, st) {
+        return Some(v);
+    }
     for ev in &c.events {
         match ev {
             Ev::W(chunk) => {
@@ -983,6 +1006,9 @@ fn run_wcase<V: VirtualFileSystem>(mk: &dyn Fn() -> Wb<V>, c: &WCase, st: &mut W
                             off += k;
                         },
                     }
+                }
+                if let Some(v) = check_open("after a write that was not flushed yet", &written, st) {
+                    return Some(v);
                 }
             },
             Ev::F => {
